@@ -98,6 +98,7 @@ LargePool == SmallPool \cup {
 }
 
 O == IF Pool = "small" THEN SmallPool ELSE LargePool
+SharedModes == {"shared", "sharedA", "sharedB"}
 
 \* Observations on an object expression bound to `o`
 Reflect == ObjE(<<
@@ -115,12 +116,20 @@ Universe ==
     [] Mode = "identity" -> {<<a>> : a \in LargePool}
     [] Mode = "remove" -> (LargePool \X {KA, KB, KC})
     [] Mode = "chains4" -> O \X O \X O \X O
-    [] Mode = "shared" -> O \X O \X O
+    [] Mode \in SharedModes -> O \X O \X O
 
 BracketsOf(t) ==
   CASE Mode = "triples" -> <<Plus(Plus(t[1], t[2]), t[3]), Plus(t[1], Plus(t[2], t[3]))>>
     [] Mode = "identity" -> <<t[1], Plus(ObjE(<<>>), t[1]), Plus(t[1], ObjE(<<>>))>>
     [] Mode = "remove" -> <<Std("objectRemoveKey", <<t[1], t[2]>>), t[1]>>
+    \* sharedA / sharedB: only ONE of the two bracketings after p, q, r have been used, so that a fault of
+    \* one bracketing is not masked by the other one failing the same way later in the array
+    [] Mode = "sharedA" ->
+         << <<"local", << <<"p", t[1]>>, <<"q", Plus(V("p"), t[2])>>, <<"r", t[3]>> >>,
+              ArrE(<<V("p"), V("q"), V("r"), Plus(V("q"), V("r"))>>)>> >>
+    [] Mode = "sharedB" ->
+         << <<"local", << <<"p", t[1]>>, <<"u", t[2]>>, <<"r", t[3]>> >>,
+              ArrE(<<V("p"), V("u"), V("r"), Plus(V("p"), Plus(V("u"), V("r"))), Plus(Plus(V("p"), V("u")), V("r"))>>)>> >>
     [] Mode = "shared" ->
          \* the same object VALUE is used (forced) before it is extended: a, then a + B, then (a + B) + C,
          \* then the other bracketing, then a again - a cached per-object environment, assertion flag or field
@@ -155,7 +164,7 @@ RefOf(o) ==
 Mk(t) == LET bs == BracketsOf(t) IN
          [t |-> t, bs |-> bs,
           man |-> [i \in 1..Len(bs) |-> Run(bs[i], Fuel)],
-          ref |-> [i \in 1..Len(bs) |-> IF Mode = "shared" THEN Outside ELSE RefOf(bs[i])]]
+          ref |-> [i \in 1..Len(bs) |-> IF Mode \in SharedModes THEN Outside ELSE RefOf(bs[i])]]
 
 Init == \E t \in (IF Sample = 0 \/ Cardinality(Universe) <= Sample THEN Universe ELSE RandomSubset(Sample, Universe)) :
           c = Mk(t)
@@ -177,7 +186,7 @@ StrsOf(a) == [i \in 1..Len(a.a) |-> a.a[i].c]
 LawReflect ==
   \A i \in 1..Len(Brackets) :
     LET r == Ref(i) IN
-    (Mode # "shared" /\ r[1] = "ok") =>
+    (Mode \notin SharedModes /\ r[1] = "ok") =>
       LET f == StrsOf(FieldOfJson(r[2], 102))   \* f: objectFields
           g == StrsOf(FieldOfJson(r[2], 103))   \* g: objectFieldsAll
           l == FieldOfJson(r[2], 108)
